@@ -301,4 +301,131 @@ theorem ascii85decode_len (data out : Bytes) (h : ascii85decode data = .ok out) 
   have h2 := stripStart_length_le data
   omega
 
+/-! ### LZWDecode -/
+
+theorem lzwRunB_err : ∀ (fuel : Nat) (st : LzwSt) (rest : Bytes) (buff bpos : Nat) (e : Err),
+    lzwRunB fuel st rest buff bpos = .error e → e = .indexError := by
+  intro fuel
+  induction fuel with
+  | zero => intro st rest buff bpos e h; simp [lzwRunB] at h
+  | succ f ih =>
+    intro st rest buff bpos e h
+    simp only [lzwRunB] at h
+    split at h
+    · cases h
+    · split at h
+      · cases h
+      · cases h; rfl
+      · rename_i st' x hf
+        split at h
+        · cases h
+        · rename_i e' hr
+          cases h
+          exact ih _ _ _ _ _ hr
+
+/-- Every table entry and the previous output are at most `m` bytes long. -/
+def LzwBound (st : LzwSt) (m : Nat) : Prop :=
+  (∀ e ∈ st.ext, e.length ≤ m) ∧ (∀ p, st.prev = some p → p.length ≤ m) ∧ 1 ≤ m
+
+theorem tableGet_len {st : LzwSt} {m : Nat} (hI : LzwBound st m) (code : Nat) (x : Bytes)
+    (h : tableGet st code = some x) : x.length ≤ m := by
+  unfold tableGet at h
+  split at h
+  · cases h
+  · split at h
+    · cases h; simpa using hI.2.2
+    · split at h
+      · cases h
+      · exact hI.1 x (List.mem_of_getElem? h)
+
+theorem feedGrow_inv {st st' : LzwSt} {m : Nat} (hI : LzwBound st m) (entry x out : Bytes)
+    (he : entry.length ≤ m + 1) (hx : x.length ≤ m + 1) (h : feedGrow st entry x = .ok st' out) :
+    LzwBound st' (m + 1) ∧ out.length ≤ m + 1 := by
+  unfold feedGrow at h
+  cases h
+  refine ⟨⟨?_, ?_, by omega⟩, hx⟩
+  · intro e hm
+    rcases List.mem_append.mp hm with h1 | h1
+    · have := hI.1 e h1; omega
+    · simp at h1; subst h1; exact he
+  · intro p hp; cases hp; exact hx
+
+theorem feed_inv {st st' : LzwSt} {m : Nat} (hI : LzwBound st m) (code : Nat) (x : Bytes)
+    (h : feed st code = .ok st' x) : LzwBound st' (m + 1) ∧ x.length ≤ m + 1 := by
+  have hmono : LzwBound st (m + 1) :=
+    ⟨fun e he => Nat.le_succ_of_le (hI.1 e he), fun p hp => Nat.le_succ_of_le (hI.2.1 p hp), Nat.le_succ_of_le hI.2.2⟩
+  have hsimple : ∀ y, tableGet st code = some y →
+      LzwBound { st with prev := some y } (m + 1) ∧ y.length ≤ m + 1 := by
+    intro y hy
+    have := tableGet_len hI _ _ hy
+    refine ⟨⟨hmono.1, ?_, hmono.2.2⟩, by omega⟩
+    intro p hp
+    cases hp
+    omega
+  unfold feed at h
+  split at h
+  · cases h
+    refine ⟨⟨?_, ?_, by omega⟩, by simp⟩
+    · intro e he; cases he
+    · intro p hp; cases hp; simp
+  · split at h
+    · cases h
+      exact ⟨hmono, by simp⟩
+    · split at h
+      · split at h
+        · rename_i y hy
+          cases h
+          exact hsimple _ hy
+        · cases h
+      · split at h
+        · rename_i y hy
+          cases h
+          exact hsimple _ hy
+        · cases h
+      · rename_i p _ hp
+        have hpl := hI.2.1 p hp
+        split at h
+        · split at h
+          · rename_i y hy
+            have := tableGet_len hI _ _ hy
+            have h1 : (y.take 1).length ≤ 1 := by simp only [List.length_take]; omega
+            refine feedGrow_inv hI _ _ _ ?_ (by omega) h
+            simp only [List.length_append]; omega
+          · cases h
+        · split at h
+          · have h1 : (p.take 1).length ≤ 1 := by simp only [List.length_take]; omega
+            refine feedGrow_inv hI _ _ _ ?_ ?_ h <;> simp only [List.length_append] <;> omega
+          · cases h
+
+theorem lzwRunB_len : ∀ (fuel : Nat) (st : LzwSt) (rest : Bytes) (buff bpos m : Nat) (out : Bytes),
+    LzwBound st m → lzwRunB fuel st rest buff bpos = .ok out → out.length ≤ fuel * (m + fuel) := by
+  intro fuel
+  induction fuel with
+  | zero => intro st rest buff bpos m out _ h; simp [lzwRunB] at h; subst h; simp
+  | succ f ih =>
+    intro st rest buff bpos m out hI h
+    simp only [lzwRunB] at h
+    split at h
+    · cases h; simp
+    · split at h
+      · cases h; simp
+      · cases h
+      · rename_i st' x hf
+        have hi := feed_inv hI _ _ hf
+        split at h
+        · rename_i r hr
+          cases h
+          have := ih _ _ _ _ _ _ hi.1 hr
+          have hx := hi.2
+          simp only [List.length_append]
+          have e : (f + 1) * (m + (f + 1)) = f * (m + 1 + f) + (m + 1 + f) := by
+            rw [Nat.succ_mul]
+            have : m + (f + 1) = m + 1 + f := by omega
+            rw [this]
+          omega
+        · cases h
+
+theorem lzwInit_bound : LzwBound lzwInit 1 :=
+  ⟨(by intro e he; cases he), (by intro p hp; cases hp), Nat.le_refl 1⟩
+
 end PdfVerif.Filters
